@@ -858,9 +858,14 @@ class Aff:
         items = []
         mem = 0
         first = True
+        trail = [came] if came is not None else []
         while True:
             if b is stop:
                 return items
+            if not trail or trail[-1] is not b:
+                if came is not None and (not trail or trail[-1] is not came):
+                    trail.append(came)
+                trail.append(b)
             il = self.inner[b.name]
             if il is not None and il is not loop and b is il.header:
                 if il.parent is not loop:
@@ -876,14 +881,14 @@ class Aff:
                 if ins.op == 'load':
                     self.loadtag[id(ins)] = '%s:%d' % (path, mem)
                 elif ins.op == 'store':
-                    items.append(Item('Store', ins=ins, block=b))
+                    items.append(Item('Store', ins=ins, block=b, tag='%s:%d' % (path, mem)))
                     mem += 1
                 elif ins.op == 'call' and not self.is_pure_call(ins):
                     items.append(Item('Call', ins=ins, block=b))
                     mem += 1
             t = b.term
             if t.op == 'ret':
-                items.append(Item('Ret', ins=t, block=b, came=came))
+                items.append(Item('Ret', ins=t, block=b, came=came, trail=list(trail)))
                 return items
             if t.op != 'br':
                 raise Unsupported('terminator %s' % t.op)
@@ -944,8 +949,10 @@ class Aff:
         items = []
         mem = 0
         seen = 0
+        trail = [came] if came is not None else []
         while True:
             seen += 1
+            trail.append(b)
             if seen > 20:
                 raise Unsupported('early exit does not reach a return')
             for ins in b.instrs[:-1]:
@@ -961,7 +968,7 @@ class Aff:
                     mem += 1
             t = b.term
             if t.op == 'ret':
-                items.append(Item('Ret', ins=t, block=b, came=came))
+                items.append(Item('Ret', ins=t, block=b, came=came, trail=list(trail)))
                 return items
             if t.op != 'br' or len(t.x['labels']) != 1:
                 raise Unsupported('early exit with further control flow (break?) at %s' % b.name)
@@ -990,16 +997,32 @@ class Aff:
             return None
         v = t.ops[0]
         b = item.block
-        if v.k == 'reg':
+        trail = getattr(item, 'trail', None) or ([item.came, b] if item.came is not None else [b])
+        # a returned phi is resolved along the blocks this path came through (a shared return block behind a loop-exit block
+        # selects twice); what is left is evaluated where it is defined
+        idx = len(trail) - 1
+        blk = b
+        for _ in range(8):
+            if v.k != 'reg':
+                break
             d = self.fn.defs.get(v.v)
-            if d is not None and d.op == 'phi' and d.block is b and item.came is not None:
-                for o, lb in zip(d.ops, d.x['labels']):
-                    if lb == item.came.name:
-                        try:
-                            return self.ev(o, b)
-                        except Unsupported:
-                            return self.ev(o, item.came)
-        return self.ev(v, b)
+            if d is None or d.op != 'phi' or d.block.name in self.loops:
+                break       # (the variable of a loop is its value at the exit, not a selection by edge)
+            js = [j for j in range(idx, 0, -1) if trail[j] is d.block]
+            if not js:
+                break
+            j = js[0]
+            nxt = None
+            for o, lb in zip(d.ops, d.x['labels']):
+                if lb == trail[j - 1].name:
+                    nxt = o
+            if nxt is None:
+                break
+            v, idx, blk = nxt, j - 1, trail[j - 1]
+        try:
+            return self.ev(v, b)
+        except Unsupported:
+            return self.ev(v, blk)
 
     def emit(self, items=None, loop=None):
         """-> resolved tree: list of tuples
@@ -1023,7 +1046,7 @@ class Aff:
                 src = ins.ops[0]
                 size = self.elem(src.ty) if src.ty is not None else 8
                 base, idx = self.split(R(p), size)
-                out.append(('store', base, idx, R(v), self.fn.loc(ins)))
+                out.append(('store', base, idx, R(v), self.fn.loc(ins), getattr(it, 'tag', None)))
             elif it.kind == 'Call':
                 ins = it.ins
                 name = ins.x['callee'].v if ins.x['callee'].k == 'global' else None
